@@ -684,6 +684,7 @@ def run_s11_s12(chk, repo):
     run_s13(chk, repo)
     from rules.C01b import run_theta_sentinels
     run_theta_sentinels(chk, repo, 'S14')
+    run_s15(chk, repo)
 
 
 def run_s13(chk, repo):
@@ -713,3 +714,49 @@ def run_s13(chk, repo):
                           line=c.lineno,
                           witness='$TABLE FILE=sdtab1, $TABLE FILE=cotab, $COVARIANCE, $TABLE FILE=patab1 and a model renamed to '
                                   'run7: the record order changes and a comment ends up in front of another record')
+
+
+def run_s15(chk, repo):
+    """S15: the two pieces split_raw_record_name() cuts a chunk into are handed to the record unchanged: raw_name + content is
+    the text of the chunk. A normalised copy (strip / upper / replace) may be used to *classify* the record, but what reaches
+    the constructor as raw name and as content is the split result itself"""
+    from sa.cfg import CFG
+    from sa import reach
+    S15 = chk.rule('S15', 'create_record: the raw name and the content given to the record constructors are the unmodified '
+                          'result of the split', floor=2)
+    fm = repo.module(f'{NM}.records.factory')
+    f = fm.functions.get('create_record')
+    if f is None:
+        raise AnalysisError('S15: create_record not found')
+    cfg = CFG(f.node)
+    split = [n for n in cfg.nodes.values() if isinstance(n.ast, ast.Assign) and isinstance(n.ast.value, ast.Call)
+             and (dotted(n.ast.value.func) or '').endswith('split_raw_record_name')
+             and isinstance(n.ast.targets[0], ast.Tuple) and len(n.ast.targets[0].elts) == 2]
+    if not split:
+        raise AnalysisError('S15: `raw_name, content = split_raw_record_name(chunk)` not found')
+    rn, ct = (e.id for e in split[0].ast.targets[0].elts)
+    n = 0
+    for nd in cfg.nodes.values():
+        if nd.ast is None or nd.kind != 'stmt':
+            continue
+        for c in [c for c in ast.walk(nd.ast) if isinstance(c, ast.Call)]:
+            d = dotted(c.func) or ''
+            if not (d.endswith('Record') or d in ('record_class',) or d.endswith('_class')) or d.endswith('parser_class'):
+                continue
+            for a in c.args:
+                if isinstance(a, ast.Name) and a.id in (rn, ct):
+                    n += 1
+                    defs = reach.values(cfg, nd.id, a.id) or []
+                    bad = [v for _nid, v in defs if not (isinstance(v, ast.Call) and (dotted(v.func) or '').endswith(
+                        'split_raw_record_name')) and not (isinstance(v, ast.Subscript) and isinstance(v.value, ast.Call))]
+                    # reach.values gives the right-hand side; for the tuple assignment that is the split call itself
+                    bad = [v for v in bad if not (isinstance(v, ast.Name) and v.id in (rn, ct))]
+                    chk.instance(S15, f'{d}(.. {a.id} ..): split result unchanged: {not bad}')
+                    for v in bad:
+                        chk.violation(S15, fm.rel, f.qualname, f'{a.id} = {unparse(v)[:60]} ... {d}(..{a.id}..)',
+                                      'the record is built from a modified copy of the split result: str(record) no longer '
+                                      'reproduces the chunk', line=getattr(v, 'lineno', nd.line),
+                                      witness='an indented record of a kind pharmpy does not know (`  $WARNINGS NONE`): the '
+                                              'indentation is lost on a no-op round trip')
+    if n < 2:
+        raise AnalysisError(f'S15: only {n} constructor arguments traced in create_record')
